@@ -572,7 +572,7 @@ Proof.
   assert (G3 : st_tgt (w_store w3) = Some (SDoc t0)) by (rewrite (O3 u3 eq_refl); reflexivity).
   destruct (tg_has_deleg t0).
   - destruct (load_delegs fx cfg srv sn (r_cs r) lim (c_fuel cfg) (tg_dkeys t0) (tg_roles t0)
-                          [name_targets_role] w3) as [[rs|c a] w4] eqn:E4;
+                          (top_ancestors fx) w3) as [[rs|c a] w4] eqn:E4;
       apply (load_delegs_frame _ _ _ _ _ _ same_docs same_docs_refl same_docs_trans add_other_same_docs) in E4 as (R4 & T4 & S4 & G4).
     + destruct (validate (tg_set_roles t0 rs)) eqn:Val; inv H; rewrite <- R4, <- T4, <- S4, <- G4, R3, T3, S3', G3.
       * split; [reflexivity|split; [reflexivity|split; [reflexivity|split; [right; eauto|]]]].
